@@ -586,15 +586,50 @@ func (pr *progress) classOfInit(fn *ssa.Function, init *pstate) int {
 			}
 		}
 		any = true
-		c := pNone
-		switch {
-		case s.adv:
-			c = pAdv
-		case s.atEOF:
-			c = pAdvOrEOF
+		// `return err` / `_, err := callee(); return err`: this return is a success
+		// exactly when the callee succeeded, so the callee's contribution applies
+		states := []*pstate{s}
+		for _, rv := range ret.Results {
+			if !core.IsErrorType(rv.Type()) {
+				continue
+			}
+			v := pr.resolvePhi(rv, s)
+			var call *ssa.Call
+			switch x := v.(type) {
+			case *ssa.Extract:
+				call, _ = x.Tuple.(*ssa.Call)
+			case *ssa.Call:
+				call = x
+			}
+			if call == nil || s.nilErrs[v] {
+				continue
+			}
+			callee := call.Call.StaticCallee()
+			if callee == nil || !(pr.scope[callee] || pr.scope[core.OriginOf(callee)]) {
+				continue
+			}
+			class := pr.summary[core.OriginOf(callee)]
+			if callee == pr.advance {
+				class = pAdvOrEOF
+			}
+			if class != pAdv {
+				if cc := pr.ctxClass(core.OriginOf(callee), call, s); cc > class {
+					class = cc
+				}
+			}
+			states = pr.apply(s, class, call)
 		}
-		if c < worst {
-			worst = c
+		for _, st := range states {
+			c := pNone
+			switch {
+			case st.adv:
+				c = pAdv
+			case st.atEOF:
+				c = pAdvOrEOF
+			}
+			if c < worst {
+				worst = c
+			}
 		}
 	}, nil)
 	if !any {
